@@ -104,6 +104,34 @@ def targeted(gates):
         yield prog(f, "(decl - int secret (lit 41)) (expr (call poke)) (print (e (var secret)))")
 
 
+MS_FID = "method_static_shared_between_impls"
+
+
+def method_static_cases():
+    """static locals of METHODS: a method is a function of its impl — two impls' methods of the same name have separate statics,
+    all objects of one type share the method's static, a plain function of the same name has its own"""
+    cases = []
+    HDR = ("struct A { int v; };\nstruct B { int v; };\ninterface Cnt { int bump(); int other(); };\n"
+           "impl Cnt for A {\n    int bump() {\n        static int n = 0;\n        n = n + 1;\n        return n;\n    }\n"
+           "    int other() {\n        static int n = 100;\n        n = n + 10;\n        return n;\n    }\n};\n"
+           "impl Cnt for B {\n    int bump() {\n        static int n = 0;\n        n = n + 1;\n        return n;\n    }\n"
+           "    int other() {\n        static int n = 500;\n        n = n + 1;\n        return n;\n    }\n};\n"
+           "int bump() {\n    static int n = 1000;\n    n = n + 1;\n    return n;\n}\n")
+
+    def c(cid, body, out, finding=None):
+        d = {"id": cid, "program": HDR + "int main() {\n    A a;\n    A a2;\n    B b;\n" + body + "    println(\"END\");\n    return 0;\n}\n", "expect_class": "ok", "expect_stdout": out + "END\n"}
+        if finding:
+            d["finding"] = finding
+        cases.append(d)
+    c("one-type-two-objects", "    println(a.bump(), a2.bump(), a.bump());\n", "1 2 3\n")
+    c("two-methods-one-impl", "    println(a.bump(), a.other(), a.bump(), a.other());\n", "1 110 2 120\n")
+    c("same-name-two-impls", "    println(a.bump(), a.bump(), b.bump(), a.bump(), b.bump());\n", "1 2 1 3 2\n", MS_FID)
+    c("same-name-two-impls-other", "    println(a.other(), b.other(), a.other(), b.other());\n", "110 501 120 502\n", MS_FID)
+    c("method-vs-function", "    println(a.bump(), bump(), a.bump(), bump());\n", "1 1001 2 1002\n", MS_FID)
+    c("through-interface", "    Cnt ia = a;\n    Cnt ib = b;\n    println(ia.bump(), ib.bump(), ia.bump(), ib.bump());\n", "1 1 2 2\n", MS_FID)
+    return cases
+
+
 def default_expr_cases():
     """default values that are expressions over EARLIER parameters of the same call (and over globals): evaluated in the callee's
     frame at every call; the values are computed here"""
@@ -133,6 +161,7 @@ def main(a):
     quick = a.tier == "quick"
     c.suite("targeted", targeted(c.gates), nontrivial=lambda r: hash(r.sexp))
     c.raw_suite("default-expressions", default_expr_cases(), max_report=4)
+    c.raw_suite("method-statics", method_static_cases(), max_report=4)
     n = 400 if quick else 30000
     rnd = [gen_core.gen_program(a.seed, 81, k, c.gates, size=20, features={"reuse_names": True, "calls": True})[0]
            for k in range(n)]
